@@ -1,6 +1,7 @@
 pub mod ast_norm;
 pub mod engine;
 pub mod exec;
+pub mod ir_typecheck;
 pub mod json;
 pub mod props;
 pub mod util;
